@@ -39,6 +39,9 @@ func (w *World) pickWeighted() string {
 
 func sortedVals(v *View) []*ValView {
 	var out []*ValView
+	if v == nil { // instances run without snapshots (Env.NoSnap) have no view
+		return nil
+	}
 	for _, x := range v.Vals {
 		out = append(out, x)
 	}
